@@ -316,6 +316,7 @@ func corpusGoGen() []*modSpec {
 		mk("go-select-keys-of-every-column-type", "package models\n\nimport \"time\"\n\ntype IdRoom int64\ntype Kind int\n\nconst (\n\tK0 Kind = iota\n\tK1\n)\n\ntype Label string\n\ntype Room struct {\n\tId IdRoom\n\tName string\n}\n\n// gomacro:SQL ADD UNIQUE(IdRoom, Start)\n// gomacro:SQL _SELECT KEY(Start)\n// gomacro:SQL _SELECT KEY(Kind)\n// gomacro:SQL _SELECT KEY(Label)\n// gomacro:SQL _SELECT KEY(Open, Ratio)\ntype Booking struct {\n\tId int64\n\tIdRoom IdRoom `gomacro-sql-foreign:\"Room\"`\n\tStart time.Time\n\tKind Kind\n\tLabel Label\n\tOpen bool\n\tRatio float64\n}\n"),
 		mk("go-named-containers-of-an-imported-union", "package models\n\nimport \"example.com/org/models/sub\"\n\ntype L []sub.Shape\n\ntype M map[string]sub.Shape\n\ntype T struct {\n\tA int\n\tS L\n\tD M\n}\n", modFile{"sub/sub.go", "package sub\n\ntype Shape interface{ isShape() }\n\ntype Circle struct{ R int }\n\nfunc (Circle) isShape() {}\n"}),
 		mk("go-struct-field-of-an-imported-union", "package models\n\nimport \"example.com/org/models/sub\"\n\ntype T struct {\n\tA int\n\tS sub.Shape\n}\n", modFile{"sub/sub.go", "package sub\n\ntype Shape interface{ isShape() }\n\ntype Circle struct{ R int }\n\nfunc (Circle) isShape() {}\n"}),
+		mk("go-unexported-type-of-another-package", "package models\n\nimport \"example.com/org/models/sub\"\n\ntype S struct {\n\tV sub.Pub\n\tN int\n}\n", modFile{"sub/sub.go", "package sub\n\ntype hidden struct{ X int }\n\ntype level int\n\ntype Pub struct {\n\tH hidden\n\tL []hidden\n\tK level\n}\n"}),
 		mk("go-subpackage-types", "package models\n\nimport \"example.com/org/models/sub\"\n\ntype T struct {\n\tId int64\n\tE sub.E\n\tS sub.S\n\tL []sub.S\n}\n", modFile{"sub/sub.go", "package sub\n\ntype E int\n\nconst (\n\tEA E = iota\n\tEB\n)\n\ntype S struct{ X, Y int }\n"}),
 	}
 }
